@@ -137,6 +137,30 @@ def far_pass(ctx, L, units):
         ks = [k for k in ks if k >= 1]
         call = JC.c05_call
         nv += _sweep(ctx, u, ks, (lambda a, u=u: JC.c05_call(L, u, a)()), 'marks far beyond the table', (lambda a, u=u: JC.c05_replay(u, a)))
+        if u.sys == 'ty':
+            # the calculator class behind tyrving_score, used directly (the anchored race / jump / stav points): the same points,
+            # and never negative however poor the mark
+            TS = L['tyrving_score']
+            try:
+                g_, ev_, age_ = u.key
+                gk = L['athlib'].normalize_gender(g_)
+                params = TS._tyrvingTables[gk][ev_]
+                calc = TS.TyrvingCalculator(gk, ev_, params[0], params[1])
+            except Exception:
+                calc = None
+            if calc is not None:
+                for k in ks:
+                    arg = k / 100.0
+                    top = JC.canon(JC.c05_call(L, u, arg))
+                    drc = JC.canon(lambda: calc.points(age_, arg))
+                    ctx.count(2, 'calls_variants')
+                    if top.startswith('p ') and drc != top:
+                        nv += 1
+                        ctx.fail('athlib.tyrving_score.TyrvingCalculator.points', list(u.key) + [arg], 'the points tyrving_score gives, %s (never negative)' % top[2:], drc,
+                                 note='bounds: the calculator used directly',
+                                 replay_py=('from athlib import tyrving_score as TS\np = TS._tyrvingTables[%r][%r]\nresult = (TS.TyrvingCalculator(%r, %r, p[0], p[1]).points(%r, %r), athlib.tyrving_score(%r, %r, %r, %r))'
+                                            % (gk, ev_, gk, ev_, age_, arg, g_, age_, ev_, arg)))
+                        break
         if u.sys == 'ty' and u.timed:
             # the same far marks as hand-timed texts (one decimal, whole seconds): still within bounds, still monotone
             lo_, hi_ = JC.BOUNDS[u.sys]
